@@ -24,17 +24,18 @@ const verifDir = "/verif"
 
 // caseResult is what a worker reports for one case.
 type caseResult struct {
-	Idx        int              `json:"idx"`
-	Runs       int64            `json:"runs"`
-	Discarded  bool             `json:"discarded,omitempty"`
-	Nontrivial bool             `json:"nontrivial,omitempty"`
-	Hash       string           `json:"hash,omitempty"`
-	Findings   []finding        `json:"findings,omitempty"`
-	Stats      map[string]int64 `json:"stats,omitempty"`
-	Sample     any              `json:"sample,omitempty"`
-	MaxRatio   float64          `json:"max_ratio,omitempty"`
-	Cells      []string         `json:"cells,omitempty"`      // distinct coverage cells visited
-	DistinctN  int64            `json:"distinct_n,omitempty"` // distinct non-trivial items inside this case (disjoint across cases)
+	Idx          int              `json:"idx"`
+	Runs         int64            `json:"runs"`
+	Discarded    bool             `json:"discarded,omitempty"`
+	Nontrivial   bool             `json:"nontrivial,omitempty"`
+	Hash         string           `json:"hash,omitempty"`
+	Findings     []finding        `json:"findings,omitempty"`
+	Stats        map[string]int64 `json:"stats,omitempty"`
+	Sample       any              `json:"sample,omitempty"`
+	MaxRatio     float64          `json:"max_ratio,omitempty"`
+	MaxTickRatio float64          `json:"max_tick_ratio,omitempty"`
+	Cells        []string         `json:"cells,omitempty"`      // distinct coverage cells visited
+	DistinctN    int64            `json:"distinct_n,omitempty"` // distinct non-trivial items inside this case (disjoint across cases)
 }
 
 // property is the interface every check implements.
@@ -180,8 +181,16 @@ func (e kfEntry) matches(f finding) bool {
 	if e.Sub != "" && !contains(strings.Split(e.Sub, "|"), subClass(f.Sub)) {
 		return false
 	}
-	if e.Site != "" && !strings.Contains(strings.ReplaceAll(f.Site, " ", "_"), e.Site) {
-		return false
+	if e.Site != "" {
+		hit := false
+		for _, alt := range strings.Split(e.Site, "|") {
+			if strings.Contains(strings.ReplaceAll(f.Site, " ", "_"), alt) {
+				hit = true
+			}
+		}
+		if !hit {
+			return false
+		}
 	}
 	if len(e.Trigger) > 0 {
 		hit := false
@@ -224,6 +233,7 @@ type aggregate struct {
 	Findings         []finding
 	Samples          []any
 	MaxRatio         float64
+	MaxTickRatio     float64
 	Inconclusive     []string
 }
 
@@ -387,6 +397,9 @@ func readResults(path string, agg *aggregate, mu *sync.Mutex) (lastB int, comple
 			if r.MaxRatio > agg.MaxRatio {
 				agg.MaxRatio = r.MaxRatio
 			}
+			if r.MaxTickRatio > agg.MaxTickRatio {
+				agg.MaxTickRatio = r.MaxTickRatio
+			}
 			mu.Unlock()
 		case line == "D":
 			complete = true
@@ -496,6 +509,7 @@ func finishCheck(p property, tier string, seed int64, agg *aggregate, start time
 		"violation_classes":            seen,
 		"inconclusive":                 agg.Inconclusive,
 		"max_cycles_over_bound_ratio":  agg.MaxRatio,
+		"max_ticks_over_bound_ratio":   agg.MaxTickRatio,
 	}
 	if len(agg.Samples) == 0 {
 		cov["samples"] = []any{"(no sample recorded)"}
